@@ -135,7 +135,7 @@ PROPS["C08"] = dict(
 )
 PROPS["C10"] = dict(
     module="UpfVerif.Props.C10",
-    streams=[_ctl(6, "urr"), dict(name="krep", args=["net=188"], shards=2, shards_thorough=8, seed_per_shard=True, timeout=900, timeout_thorough=3000)],
+    streams=[_ctl(6, "urr"), _ctl(10, "nodes", cases=12, tcases=120), dict(name="krep", args=["net=188"], shards=2, shards_thorough=8, seed_per_shard=True, timeout=900, timeout_thorough=3000)],
     rule="krep: gtp5g REPORT multicasts (1-6 usage reports over 1-5 sessions in one message, 64-bit volumes at boundaries, every single-cause trigger word and non-mapped words, "
          "unknown sessions / URRs) through the real buffnetlink listener and the running server to the SMF; ctl profile 'urr': report batches (1-3 usage reports, 64-bit counters at boundaries, single-cause and arbitrary triggers, START) for live / unknown / ended "
          "sessions and known / unknown URRs with every measurement-method x MNOP combination; node ids IPv4 and IPv6",
@@ -177,7 +177,7 @@ PROPS["C12"] = dict(
 )
 PROPS["C07"] = dict(
     module="UpfVerif.Props.C07",
-    streams=[_ctl(9, "mix"), dict(name="malformed", args=["net=152"], shards=4, shards_thorough=12, seed_per_shard=True, timeout=600, timeout_thorough=3000),
+    streams=[_ctl(9, "mix"), dict(name="malformed", args=["net=208"], shards=4, shards_thorough=12, seed_per_shard=True, timeout=600, timeout_thorough=3000),
              dict(name="drv", args=["corpus=/verif/corpus/drvmal.lines"], shards=2, shards_thorough=4, seed_per_shard=True)],
     rule="ctl 'mix' (junk, truncated, unknown-type datagrams inside valid histories, SEIDs at all boundary classes) + malformed stream: structure-aware mutations of "
          "valid PFCP messages (header fields, IE lengths, nested IEs, flag octets, ids) after valid prefixes, liveness probe after each datagram; drv: rule IEs (well-formed, C-TAG/S-TAG outer header creation, damaged copies) through the real gtp5g driver",
